@@ -45,9 +45,13 @@ def cases(rng, tier):
                 if len(s[ax]) == 3 and rng.random() < 0.7:
                     p0 = prev[ai]
                     d = rng.randint(-2500, 2500)
-                    kind = rng.choice(["b0", "b0", "flat", "same"])
+                    kind = rng.choice(["b0", "b0", "flat", "same", "rest-overshoot", "rest-overshoot"])
                     if kind == "b0":
                         s[ax] = [p0 + d, p0 + 2 * d, rng.choice([p0, p0 - d, rng.randint(-6000, 6000)])]
+                    elif kind == "rest-overshoot":
+                        # starts from rest (first control point = start: the derivative has no constant term) and
+                        # overshoots its end point inside the segment
+                        s[ax] = [p0, p0 + d + d // 2, p0 + d]
                     elif kind == "flat":
                         s[ax] = [p0, p0, p0 + d]
                     else:
